@@ -4,7 +4,8 @@ SPEC = dict(
     run_timeout=3000,
     rule="metamorphic histories on the real fuzz-target entry points (FuzzServiceStub.SetState / ImportBlock / GetState, tiny parameters, "
          "JAM_FUZZ=1): from 6 synthetic genesis states (validators whose Bandersnatch/Ed25519 secrets the harness owns, sealing through the "
-         "VRF stand-in) chains over several epochs of VALID blocks authored from the parent's posterior state (fallback-key sealed and "
+         "VRF stand-in; 5 of them with service accounts holding storage items, preimage+lookup entries and open lookup requests = raw unmatched "
+         "key-values) chains over several epochs of VALID blocks authored from the parent's posterior state (fallback-key sealed and "
          "ticket-sealed epochs, epoch marks, winning-tickets marks, ticket extrinsics, assurances; children, forks/siblings on recent states, "
          "slot gaps, skipped epochs) with 25 kinds of INVALID blocks interleaved (bad slot, parent state root, extrinsic hash, extrinsic body "
          "under a valid header, seal, entropy source, author, author index, epoch mark, tickets mark, offenders mark, ticket order / duplicate / "
@@ -55,8 +56,8 @@ MANIFEST = dict(
          "oracle table observed from the implementation, so what the check decides is whether the real node implements the proved protocol "
          "(no trace of a rejected block: latest block, head, ancestry, in-place mutated prior state, half-built posterior state). Guarantees, "
          "disputes and accumulation never appear in generated blocks (only tickets, assurances with empty bitfields, and refused preimages). "
-         "Go code is modelled, not verified. Requires proposed_fixes/C26-import-rollback.patch: on the unpatched tree the check reports the three "
-         "defect shapes in corpus/C26.",
+         "Go code is modelled, not verified. The defect found (ImportBlock left traces of a rejected block; three shapes in corpus/C26) is repaired by the applied "
+         "fix commit from proposed_fixes/C26-import-rollback.patch.",
     technique="Coq proof of a metamorphic law of the node protocol (STF as Section variable) + metamorphic differential execution (node A vs nodes "
               "that never saw the rejected blocks, extracted OCaml model with an observed STF table) + refutation witness of the pre-repair node shape",
     design_ref="DESIGN.md §4 C26",
